@@ -92,12 +92,23 @@ CHECKS.update({
 
 
 
-def mount_stages(ctx, attr=None):
+def mount_stages(ctx, attr=None, with_add=False):
     cfg = "Mount.quick.cfg" if ctx.tier == "quick" else "Mount.thorough.cfg"
     args = ["--names", "a,ab,b,f", "--depth", "4"]
     if attr:
         args += ["--attr", attr]
     graph_stage(ctx, "mount", "MC_Mount.tla", cfg, "mount", ["mountmem"], args, workers=8, frontier=True)
+    if with_add:
+        mountadd_stages(ctx)
 
 
-CHECKS["C06"] = mount_stages
+def mountadd_stages(ctx):
+    """MountAdd.tla: concurrent AddMount, every step forced through the hook points of mount.FS.addMount"""
+    cfgs = ["aaa", "aab", "nest", "afile", "bmissing"] + ([] if ctx.tier == "quick" else ["nest4"])
+    for c in cfgs:
+        graph_stage(ctx, "mountadd-" + c, "MC_MountAdd.tla", "MountAdd.%s.cfg" % c, "mountadd", ["mountadd"], [], workers=4, vh_workers=8)
+    # every AddMount returns under every fair schedule (4 goroutines, nested points)
+    tlc_only_stage(ctx, "mountadd-live", "MC_MountAdd.tla", "MountAdd.live.cfg", workers=4)
+
+
+CHECKS["C06"] = lambda ctx: mount_stages(ctx, with_add=True)
